@@ -39,6 +39,12 @@ def main():
     try:
         patch = os.path.join(src, "patch.diff")
         rc, out = run(["git", "apply", "--whitespace=nowarn", patch], cwd=wt)
+        if rc != 0:
+            # written against an earlier /repo HEAD (before a later fix: commit moved the context)
+            rc, out2 = run(["patch", "-p1", "-F3", "--no-backup-if-mismatch", "-i", patch], cwd=wt)
+            out += out2
+            meta["applied_with_fuzz"] = rc == 0
+            run("find . -name '*.orig' -delete; find . -name '*.rej' -delete", cwd=wt)
         meta["applies"] = rc == 0
         if rc != 0:
             meta["apply_error"] = out[-600:]
@@ -48,13 +54,24 @@ def main():
         if rc != 0:
             meta["build_error"] = out[-600:]
             return finish(meta, src, name, wt)
-        rc, out = run("go test -count=1 -timeout 20m ./...", cwd=wt)
-        meta["suite_passes_with_change"] = rc == 0
-        if rc != 0:
-            meta["suite_output"] = out[-800:]
+        prev = {}
+        pm = os.path.join(VERIF, "seeded", name, "meta.json")
+        checks_only = bool(os.environ.get("SEEDED_CHECKS_ONLY")) and os.path.exists(pm)
+        if checks_only:
+            # re-evaluation on a newer harness: the change itself was validated before
+            prev = json.load(open(pm))
+            for k in ("suite_passes_with_change", "demo_fails_with_change", "demo_passes_without_change", "change", "needs", "history"):
+                if k in prev:
+                    meta[k] = prev[k]
+            meta["validated_at_base_commit"] = prev.get("validated_at_base_commit", prev.get("base_commit"))
+        else:
+            rc, out = run("go test -count=1 -timeout 20m ./...", cwd=wt)
+            meta["suite_passes_with_change"] = rc == 0
+            if rc != 0:
+                meta["suite_output"] = out[-800:]
         # demo
         demo = os.path.join(src, "demo_test.go")
-        if os.path.exists(demo):
+        if os.path.exists(demo) and not checks_only:
             txt = open(demo).read()
             pkgdir = "httpio" if re.search(r"^package httpio", txt, re.M) else "."
             tests = re.findall(r"^func (Test\w+)\(", txt, re.M)
@@ -66,14 +83,15 @@ def main():
                 rc, out = run(["go", "test", "-count=1", "-timeout", "5m", "-run", pat, "./" + pkgdir], cwd=wt)
                 fails += rc != 0
             meta["demo_fails_with_change"] = f"{fails}/3"
-            run(["git", "apply", "-R", "--whitespace=nowarn", patch], cwd=wt)
+            run("git diff > /tmp/ev/%s.applied.diff; git checkout -- ." % name, cwd=wt)
             passes = 0
             for _ in range(3):
                 rc, out = run(["go", "test", "-count=1", "-timeout", "5m", "-run", pat, "./" + pkgdir], cwd=wt)
                 passes += rc == 0
             meta["demo_passes_without_change"] = f"{passes}/3"
             os.remove(dst)
-            run(["git", "apply", "--whitespace=nowarn", patch], cwd=wt)
+            run(["git", "apply", "--whitespace=nowarn", "/tmp/ev/%s.applied.diff" % name], cwd=wt)
+            os.remove("/tmp/ev/%s.applied.diff" % name)
         # checks
         meta["checks"] = {}
         for prop in props:
